@@ -273,10 +273,12 @@ def obligations(tier, seed):
                                     ('group', (3, 4) if q else (3, 4, 5, 6)), ('roll', (3, 4) if q else (3, 5, 6))):
                         if q and ctx in ('group',) and acc in ('maxn',):
                             ns = (3,)
+                        if acc == 'nullable' and seedkind == 'value' and ctx != 'plain':
+                            continue      # precondition of the statement: in multiplexed mode the accumulator returns values of the seed's type (an int seed is stored in a typed array); a factory seed is stored as an object
                         for n in ns:
                             obs.append(Ob(PROP, 'scan_runs', dict(acc=acc, seedkind=seedkind, reduce=reduce, term=term, ctx=ctx, n=n), budget=b,
                                           group='scan_runs:' + ctx, bound=dict(items=n, acc=acc, ctx=ctx)))
-                if seedkind == 'value':
+                if seedkind == 'value' and acc != 'nullable':
                     for term in (False, True):
                         for ev in ('next', 'complete'):
                             obs.append(Ob(PROP, 'scan_step', dict(acc=acc, reduce=reduce, term=term, event=ev), budget=b,
